@@ -348,7 +348,8 @@ def build(seed: int, family: str | None = None) -> Scenario:
 
             e_del = RecExch(lab.copy(), Translation() if not molecular else TranslationRotation(), bias_towards_insert=0.0)
             e_ins = RecExch(lab.copy(), Translation() if not molecular else TranslationRotation(), bias_towards_insert=1.0)
-            mc.add_move(CompositeMove([e_del, e_ins]), criteria=GrandCanonicalCriteria(), name="swap")
+            # either order inside the one trial: delete then insert, or insert then delete
+            mc.add_move(CompositeMove([e_del, e_ins] if rs.rand() < 0.5 else [e_ins, e_del]), criteria=GrandCanonicalCriteria(), name="swap")
             mc.add_move(e, name="exch", probability=0.5)
         if rs.rand() < 0.7:
             d = RecDisp(lab.copy(), disp_op(rs, molecular))
